@@ -184,6 +184,12 @@ def _check_grouped(members, values):
             return f"attribute {n}: {getattr(g, n)!r}, first member holds {wv[n]!r}"
     if [k for k in g._asdict() if not k.startswith("_")] != [n for _, n in want]:
         return f"_asdict keys {list(g._asdict())}"
+    for t, n in want:
+        if g._asdict()[n] != wv[n]:
+            return f"_asdict()[{n!r}] is {g._asdict()[n]!r}, the first member that has the field holds {wv[n]!r}"
+    sel = [n for _, n in want][::-1][:2]
+    if list(g._asdict(fields=sel)) != sel or any(g._asdict(fields=sel)[n] != wv[n] for n in sel):
+        return f"_asdict(fields={sel}) gives {g._asdict(fields=sel)!r}"
     try:
         g.nosuchfield
         return "unknown attribute answered"
